@@ -4,6 +4,7 @@ import (
 	"bytes"
 	"fmt"
 	"io"
+	"strings"
 	"unicode/utf8"
 
 	"github.com/tdewolff/parse/v2"
@@ -46,10 +47,13 @@ const (
 	ctorBufferReader
 	ctorBytesBuffer
 	ctorNil
+	ctorStdBytesReader   // *bytes.Reader: no Bytes(), but Len()/Size()/Seek()/ReadAt()/WriteTo()
+	ctorStdStringsReader // *strings.Reader
+	ctorStdSection       // *io.SectionReader
 	nCtors
 )
 
-var ctorNames = [...]string{"Bytes(cap==len)", "Bytes(cap==len+1)", "Bytes(spare)", "String", "Reader(sim)", "Reader(own Bytes())", "Reader(buffer.Reader)", "Reader(bytes.Buffer)", "Reader(nil)"}
+var ctorNames = [...]string{"Bytes(cap==len)", "Bytes(cap==len+1)", "Bytes(spare)", "String", "Reader(sim)", "Reader(own Bytes())", "Reader(buffer.Reader)", "Reader(bytes.Buffer)", "Reader(nil)", "Reader(bytes.Reader)", "Reader(strings.Reader)", "Reader(io.SectionReader)"}
 
 const (
 	o12Peek = iota
@@ -253,6 +257,31 @@ func RunC12(ctx *core.Ctx) *core.Violation {
 			// (whether the implementation really borrows the byte or copies the input is its own
 			// business: only what it leaves behind after Restore is judged)
 		}
+	case ctorStdBytesReader, ctorStdStringsReader, ctorStdSection:
+		// real standard-library readers that know their size; sometimes the caller has already
+		// consumed a prefix (a sniffed header), so the Input must cover the remainder
+		var sr interface {
+			io.Reader
+			io.Seeker
+		}
+		switch ctor {
+		case ctorStdBytesReader:
+			sr = bytes.NewReader(data)
+		case ctorStdStringsReader:
+			sr = strings.NewReader(string(data))
+		default:
+			sr = io.NewSectionReader(bytes.NewReader(append(append([]byte("HEAD"), data...), "TAIL"...)), 4, int64(len(data)))
+		}
+		if len(data) > 0 && t.Chance(1, 2) {
+			k := 1 + t.Draw(len(data))
+			sr.Seek(int64(k), io.SeekStart)
+			data = data[k:]
+			ctx.Count("probe_sized_reader_partially_consumed")
+		}
+		m.z = mkR(sr)
+		m.data = data
+		n = len(data)
+		m.n = n
 	case ctorString:
 		m.z = parse.NewInputString(string(data))
 		m.data = data
@@ -564,6 +593,11 @@ func RunC12(ctx *core.Ctx) *core.Violation {
 		}
 		if c := m.z.Peek(0); c != 0 {
 			return m.viol("reader-error-with-data", "reader failed but Peek(0) = %#x", c)
+		}
+	}
+	if m.fail == nil {
+		if b := m.z.Bytes(); !eq(b, m.data) {
+			return m.viol("Bytes-wrong", "right after construction Bytes() has %d bytes (%q), the source delivers %d (%q); Err() = %v", len(b), clip(b), len(m.data), clip(m.data), m.z.Err())
 		}
 	}
 	if v := m.checkMem("constructor", false); v != nil {
